@@ -206,13 +206,22 @@ let print_objs (mode : int) (l : (n * obj) list) =
   let body = if mode = 2 then "" else String.concat " " (List.map snd toks) in
   emit (Printf.sprintf "r ok %d %s" (List.length l) body)
 
+(* the state of the history being replayed (module level so that the linearizability mode can go on
+   from where a sequential prefix stopped) *)
+let g_cfg = ref { cache = false; async = false; thr = 0; tmo = 0; compress = false; ext = []; lower = false;
+                  cons = Array.make nf "0000" }
+let st = ref init_state
+let cases : (n list * (n list * n list)) list ref = ref []
+let rxs : (n list * n list list option) list ref = ref []
+let hooks () = mk_hooks !cases !rxs
+
 let run_history (lines : string list) =
   let c = { cache = false; async = false; thr = 0; tmo = 0; compress = false; ext = []; lower = false;
             cons = Array.make nf "0000" } in
-  let st = ref init_state in
+  g_cfg := c;
+  st := init_state;
   live_shape := n_of_int 1;
-  let cases = ref [] and rxs = ref [] in
-  let hooks () = mk_hooks !cases !rxs in
+  cases := []; rxs := [];
   (* group: an op line followed by its o lines *)
   let rec go (ls : string list) =
     match ls with
@@ -466,7 +475,119 @@ let clone_mode (path : string) =
      done
    with End_of_file -> ())
 
+(* ---------------------------------------------------------------- linearizability mode (C08)
+   A concurrent history recorded on ONE handle (hz -lin): a sequential prefix in the usual trace
+   format, the line "conc", then one line per concurrent call
+       c <goroutine> <inv> <resp> <op tokens ...> => <observed r line>
+   with logical invocation / response times.  Wing-Gong search: is there a total order of the
+   calls, compatible with real time (a call that returned before another one was invoked comes
+   first), along which the EXTRACTED SEQUENTIAL MODEL returns exactly the observed results? *)
+type call = { cg : int; inv : int; resp : int; ctoks : string list; cobs : string }
+
+let lin_exec (s0 : state) (t : string list) : state * string =
+  let stp o = step (hooks ()) !live_shape s0 o in
+  let unit_s r = match r with RUnit x -> "r " ^ cls_res x | RPanic -> "r panic" | RCrash -> "r crash" | _ -> "r ?" in
+  match t with
+  | [ "ins"; r ] -> let (u, o) = parse_rec r in let (s1, x) = stp (OInsert (n_of_int u, n_of_int 0, o)) in (s1, unit_s x)
+  | "many" :: ms ->
+      let mm = List.map (fun r -> let (u, o) = parse_rec r in MRec (n_of_int u, n_of_int 0, o)) ms in
+      (match stp (OMany mm) with
+       | (s1, RMany (r, n)) -> (s1, Printf.sprintf "r %s %s" (cls_res r) (string_of_z n))
+       | (s1, _) -> (s1, "r ?"))
+  | [ "del"; u ] -> let (s1, x) = stp (ODelete (n_of_int (int_of_string u))) in (s1, unit_s x)
+  | [ "get"; u ] ->
+      (match stp (OGet (n_of_int (int_of_string u))) with
+       | (s1, RObj (Ok (u, o))) -> (s1, "r ok " ^ rec_tok u o)
+       | (s1, RObj r) -> (s1, "r " ^ cls_res r)
+       | (s1, _) -> (s1, "r ?"))
+  | [ "exist"; u ] ->
+      (match stp (OExist (n_of_int (int_of_string u))) with
+       | (s1, RBool (Ok b)) -> (s1, "r ok " ^ b2s b)
+       | (s1, RBool r) -> (s1, "r " ^ cls_res r ^ " 0")
+       | (s1, _) -> (s1, "r ?"))
+  | [ "count" ] ->
+      (match stp OCount with
+       | (s1, RNum (Ok n)) -> (s1, "r ok " ^ string_of_z n)
+       | (s1, RNum r) -> (s1, "r " ^ cls_res r ^ " 0")
+       | (s1, _) -> (s1, "r ?"))
+  | [ "all" ] ->
+      (match stp OAll with
+       | (s1, RObjs (Ok l)) ->
+           let toks = List.map (fun (u, o) -> (int_of_n u, rec_tok u o)) l in
+           let toks = List.stable_sort (fun (a, _) (b, _) -> compare a b) toks in
+           (s1, String.trim (Printf.sprintf "r ok %d %s" (List.length l) (String.concat " " (List.map snd toks))))
+       | (s1, RObjs r) -> (s1, "r " ^ rd (cls_res r))
+       | (s1, _) -> (s1, "r ?"))
+  | _ -> (s0, "r unsupported")
+
+let lin_search (s0 : state) (calls : call list) : (call list) option =
+  let nodes = ref 0 in
+  let rec go (s : state) (rem : call list) (acc : call list) : call list option =
+    incr nodes;
+    if !nodes > 2000000 then raise Exit;
+    match rem with
+    | [] -> Some (List.rev acc)
+    | _ ->
+        let minresp = List.fold_left (fun m c -> min m c.resp) max_int rem in
+        let cands = List.filter (fun c -> c.inv < minresp) rem in
+        let rec try_ = function
+          | [] -> None
+          | c :: more ->
+              let (s1, out) = lin_exec s c.ctoks in
+              if String.trim out = String.trim c.cobs then
+                (match go s1 (List.filter (fun x -> x != c) rem) (c :: acc) with
+                 | Some l -> Some l
+                 | None -> try_ more)
+              else try_ more
+        in
+        try_ cands
+  in
+  go s0 calls []
+
+let lin_mode (path : string) =
+  let ic = open_in path in
+  let lines = ref [] in
+  (try while true do lines := input_line ic :: !lines done with End_of_file -> ());
+  let lines = List.rev !lines in
+  (* split into histories *)
+  let flush_one (hl : string list) =
+    match hl with
+    | [] -> ()
+    | first :: _ ->
+        let rec split pre = function
+          | [] -> (List.rev pre, [])
+          | "conc" :: r -> (List.rev pre, r)
+          | l :: r -> split (l :: pre) r in
+        let (pre, conc) = split [] hl in
+        Buffer.clear out;
+        run_history pre;
+        Buffer.clear out;
+        let calls = List.filter_map (fun l ->
+            let tk = List.filter (fun s -> s <> "") (String.split_on_char ' ' l) in
+            match tk with
+            | "c" :: g :: i :: r :: rest ->
+                let rec cut acc = function
+                  | "=>" :: obs -> (List.rev acc, String.concat " " obs)
+                  | x :: more -> cut (x :: acc) more
+                  | [] -> (List.rev acc, "") in
+                let (ct, obs) = cut [] rest in
+                Some { cg = int_of_string g; inv = int_of_string i; resp = int_of_string r; ctoks = ct; cobs = obs }
+            | _ -> None) conc in
+        let verdict =
+          try (match lin_search !st calls with
+               | Some order -> "ok " ^ String.concat "," (List.map (fun c -> string_of_int c.inv) order)
+               | None -> "NOT-LINEARIZABLE")
+          with Exit -> "gave-up" in
+        print_endline (Printf.sprintf "lin %s calls=%d %s" first (List.length calls) verdict)
+  in
+  let cur = ref [] in
+  List.iter (fun l ->
+      if String.length l >= 5 && String.sub l 0 5 = "hist " then (flush_one (List.rev !cur); cur := [ l ])
+      else cur := l :: !cur) lines;
+  flush_one (List.rev !cur)
+
 let () =
+  if Array.length Sys.argv > 2 && Sys.argv.(1) = "-lin" then (lin_mode Sys.argv.(2); exit 0);
   if Array.length Sys.argv > 2 && Sys.argv.(1) = "-snake" then (snake_mode Sys.argv.(2); exit 0);
   if Array.length Sys.argv > 2 && Sys.argv.(1) = "-clone" then (clone_mode Sys.argv.(2); exit 0);
   let ic = if Array.length Sys.argv > 1 then open_in Sys.argv.(1) else stdin in
